@@ -195,6 +195,16 @@ func checkSyntaxInfixParts(node *InfixExpression) Object {
 		return newError(syntaxErrorTemplate, expr.String())
 	}
 
+	if !operatorIsKeyword {
+		// comparators take operands, not conditions: "a < b = c" is not a sentence
+		for _, side := range []Expression{node.Left, node.Right} {
+			switch side.(type) {
+			case *InfixExpression, *PrefixExpression, *BetweenExpression, *InExpression:
+				return newError(syntaxErrorTemplate, side.String())
+			}
+		}
+	}
+
 	return nil
 }
 
